@@ -461,6 +461,26 @@ def replay(cfg, events):
                             parts[i_ % 2].add(t_)
                         agg = ReadOnlyGraphAggregate(parts)
                         return [[abst(a), abst(b)] for a, _, b in agg.triples((s, path_obj(e["p"]), o))]
+                    if via in ("dataset_quad", "dataset_ctx", "cg_quad"):
+                        # the data sits in ONE named graph of a dataset whose default graph and another named graph hold other triples (the same
+                        # edges reversed, every node linked to every other one): a path asked of that graph - by a 4-tuple or by context= - is
+                        # walked over that graph alone
+                        from rdflib import ConjunctiveGraph as _CG
+                        dsx = _CG() if via == "cg_quad" else Dataset(default_union=bool(e.get("default_union")))
+                        name = URIRef(PFX + "pathgraph")
+                        nodes = set()
+                        for t_ in g:
+                            dsx.add(t_ + (name,))
+                            dsx.add((t_[2], t_[1], t_[0]) if not isinstance(t_[2], Literal) else (t_[0], t_[1], URIRef(PFX + "elsewhere")))
+                            dsx.add((t_[0], t_[1], URIRef(PFX + "elsewhere"), URIRef(PFX + "othergraph")))
+                            nodes.update(x for x in (t_[0], t_[2]) if not isinstance(x, Literal))
+                        for a_ in nodes:
+                            for b_ in nodes:
+                                dsx.add((a_, URIRef(PFX + "p"), b_, URIRef(PFX + "othergraph")))
+                        ctx = dsx.get_context(name)
+                        if via == "dataset_ctx":
+                            return [[abst(a), abst(b)] for a, _, b in dsx.triples((s, path_obj(e["p"]), o), context=ctx)]
+                        return [[abst(a), abst(b)] for a, _, b in dsx.triples((s, path_obj(e["p"]), o, ctx if e.get("ctx_as", "graph") == "graph" else name))]
                     # growth G02: Graph.transitive_objects / transitive_subjects are p* with one end bound
                     if via == "transitive_objects":
                         return [[abst(s), abst(b)] for b in g.transitive_objects(s, conc(e["p"]["arg"]["iri"]))]
